@@ -278,6 +278,17 @@ func buildCases(tier string) []caseT {
 				}
 			}
 		}
+		// data filters that do not compile, with a variable next to the offending construct
+		for _, pre := range []string{"(?", "(?i", "(?P<", "[b-", "[", "(", "x{2,1}", "*", "\\", "[[:", "(?:"} {
+			for _, v := range []string{"@a@", "@s:v@", "@a@@b@"} {
+				for _, post := range []string{"", ")", "]", "+", "**", "{", "|)"} {
+					for _, key := range []string{"cdata", "sdata.none", "data"} {
+						sl(key + ":\"" + pre + v + post + "\"")
+						sl("@s:id:1 cdata:\"(?P<a>.)\" then " + key + ":\"x" + pre + v + post + "\"")
+					}
+				}
+			}
+		}
 		// a clause given twice: equal, different, one a prefix of the other, with other terms between them
 		lists := []string{"id", "-id", "id,-ftime", "id,-ftime,cbytes", "ftime", "-ftime,id", "id,id", ""}
 		for _, a := range lists {
